@@ -339,3 +339,4 @@ func init() {
 		}
 	}
 }
+
